@@ -122,6 +122,21 @@ pub fn standard_tokens(public: &[SocketAddr]) -> Vec<Tok> {
     v.push(mk("t-foreign-protocol", fp, false));
     v.push(mk("t-wrong-host", TokenSpec::new(7, 77, vec![server_addr(9)]), false));
     v.push(mk("t3(id3)", TokenSpec::new(3, 33, public.to_vec()), true));
+    // sealed for another protocol id / another expiry, public fields rewritten to what the server expects
+    {
+        let mut sp = TokenSpec::new(8, 88, public.to_vec());
+        sp.protocol = PROTOCOL + 1;
+        let mut token = make_token(&sp);
+        token.protocol_id = PROTOCOL;
+        let request = request_datagram(&token);
+        v.push(Tok { name: "t-sealed-for-other-protocol-public-field-ours", spec: sp, token, valid: false, request });
+        let mut sp = TokenSpec::new(9, 99, public.to_vec());
+        sp.expire = 2;
+        let mut token = make_token(&sp);
+        token.expire_timestamp = 30;
+        let request = request_datagram(&token);
+        v.push(Tok { name: "t-sealed-with-expiry-2-public-field-30", spec: sp, token, valid: false, request });
+    }
     v
 }
 
@@ -474,6 +489,7 @@ impl World for HsWorld {
             &self.connected,
             self.limit_lowered,
             self.next_seq,
+            s.token_entries_digest,
         ))
     }
 
@@ -493,14 +509,14 @@ pub fn c05_fix() -> Fix {
     let corrupt = corruptions(&toks[0].request);
     // requests: every token from address 0 and 1 (the attacker can use any address)
     let mut req_pairs = vec![];
-    for t in 0..7 {
+    for t in [0usize, 1, 2, 3, 4, 5, 6, 8, 9] {
         for a in 0..2 {
             req_pairs.push((t, a));
         }
     }
     // responses: keys of every valid token the attacker owns, from both addresses
     let mut resp_pairs = vec![];
-    for k in 0..4 {
+    for k in [0usize, 1, 2, 3, 8, 9] {
         for a in 0..2 {
             resp_pairs.push((k, a));
         }
